@@ -139,9 +139,14 @@ let () =
         let l = parse_lib plan in
         out id "M" (hex_of_bytes (write_gds_model ts l))
     | "rd" | "spec" ->
-        (match read_gds_model None (bytes_of_hex payload) with
+        let bs = bytes_of_hex payload in
+        (match read_gds_model None bs with
          | Ok l -> out id "M" (dump_lib l)
-         | o -> out id "M" (status o))
+         | o -> out id "M" (status o));
+        (* the strict grammar-directed decoder: an independent reading of the same bytes *)
+        (match spec_decode bs with
+         | Some l -> out id "S" (dump_lib l)
+         | None -> out id "S" "REJECTED-BY-STRICT-DECODER")
     | "filter" ->
         (match words payload with
          | [tags; hx] ->
